@@ -1,5 +1,6 @@
 """C10 - AudioReader framing: fixed-size blocks, overlap, max_read."""
 
+import math
 import os
 import sys
 import wave
@@ -30,7 +31,7 @@ RULE = (
 )
 MUST_HIT = ["source_already_partly_consumed", "fractional_durations", "hop_lt_block_same_samples", "empty_visible_with_overlap", "over_reads", "overlap_3_blocks", "max_read_inside_block",
             "visible_shorter_than_block", "rejected", "kind_wav_lazy", "kind_raw_lazy", "kind_stdin", "kind_stdin_pipe",
-            "kind_raw_fifo", "more_than_one_io_buffer", "block_longer_than_65536_samples"]
+            "kind_raw_fifo", "more_than_one_io_buffer", "block_longer_than_65536_samples", "redundant_open_mid_stream"]
 ASSUMPTIONS = ["durations are passed as k/rate; where the exact product lies within 1e-9 of an integer either neighbour is accepted for block/hop size"]
 BOUNDS = {"quick": dict(n=1200, maxN=60), "thorough": dict(n=8000, maxN=400)}
 KINDS = ("bytes", "buffer", "raw_lazy", "wav_lazy", "stdin", "stdin_pipe", "raw_fifo")
@@ -211,6 +212,8 @@ def durations(cfg):
     sr = cfg["sr"]
     bd = (cfg["B"] + cfg.get("fb", 0)) / sr
     hd = None if cfg.get("H") is None else (cfg["H"] + cfg.get("fh", 0)) / sr
+    if cfg.get("hop_ulp_below") and hd is not None:
+        hd = math.nextafter(bd, 0)
     return bd, hd
 
 
@@ -251,7 +254,10 @@ def check_case(case, rec):
     try:
         if cfg.get("reject"):
             how = cfg["reject"]
-            if how == "tiny_block":
+            if how == "hop_ulp_above":
+                bd_ = (cfg["B"] + cfg.get("fb", 0)) / sr
+                args = dict(block_dur=bd_, hop_dur=math.nextafter(bd_, math.inf))
+            elif how == "tiny_block":
                 args = dict(block_dur=0.4 / sr)
             elif how == "zero_block":
                 args = dict(block_dur=0)
@@ -290,7 +296,11 @@ def check_case(case, rec):
         reader.open()
         got = []
         for i in range(len(exp) + cfg["over"]):
+            if cfg.get("reopen_after") is not None and i == cfg["reopen_after"]:
+                reader.open()  # a redundant open() of an open reader (split() does that to readers it is handed)
+                classes.add("redundant_open_mid_stream")
             got.append(reader.read())
+        consumed = inp.position - (cfg.get("prepos") or 0) if cfg["kind"] == "buffer" else None
         reader.close()
         want = exp + [None] * cfg["over"]
         if got != want:
@@ -300,6 +310,10 @@ def check_case(case, rec):
                 f"{'' if got[k] is None or want[k] is None or len(got[k]) != len(want[k]) else ' (wrong content)'}, "
                 f"model says {None if want[k] is None else 'samples ' + str(spans[k])} "
                 f"(N={N}, visible={V}, block={B}, hop={H}, max_read={mr!r})", case)
+        if consumed is not None and consumed != V:
+            # "never more": a buffer source tells how many samples were pulled out of it
+            raise Violation(f"{consumed} samples were pulled from the source, the visible data has {V} "
+                            f"(N={N}, block={B}, hop={H}, max_read={mr!r})", case)
         nt = False
         if H is not None and len(exp) >= 3:
             classes.add("overlap_3_blocks")
@@ -352,6 +366,10 @@ def explicit_cases():
         dict(base, reject="tiny_block"),
         dict(base, reject="zero_block"),
         dict(base, reject="hop_gt_block", extra=1),
+        dict(base, reject="hop_ulp_above"),
+        dict(base, hop_ulp_below=True, N=40),
+        dict(base, kind="buffer", mr=[13, 0.5], reopen_after=2),
+        dict(base, kind="wav_lazy", mr=[12, 0], reopen_after=1, H=None),
     ]
 
 
@@ -366,7 +384,7 @@ def strategy(draw, maxN):
                over=draw(st.integers(1, 5)), salt=draw(st.integers(0, 10**6)))
     r = draw(st.integers(0, 19))
     if r == 0:
-        cfg["reject"] = draw(st.sampled_from(["tiny_block", "zero_block", "hop_gt_block"]))
+        cfg["reject"] = draw(st.sampled_from(["tiny_block", "zero_block", "hop_gt_block", "hop_ulp_above"]))
         cfg["extra"] = draw(st.integers(1, 3))
         return cfg
     cfg["H"] = draw(st.one_of(st.none(), st.just(B), st.integers(1, B)))
@@ -381,6 +399,9 @@ def strategy(draw, maxN):
     if cfg["kind"] == "buffer" and draw(st.booleans()):
         cfg["prepos"] = draw(st.integers(1, 9))
     cfg["rawname"] = draw(st.sampled_from([".raw", ".raw", ".pcm", "", ".dat"]))
+    cfg["reopen_after"] = draw(st.one_of(st.none(), st.integers(0, 6)))
+    if cfg["H"] is not None and draw(rarely(8)):
+        cfg["hop_ulp_below"] = True  # hop_dur one ulp short of block_dur: still an overlapping reader
     if draw(rarely(40)):
         # blocks longer than 2**16 samples (1.5 s at 48 kHz) / 2**16 bytes
         cfg["B"] = draw(st.sampled_from([65535, 65536, 65537, 70000, 33000]))
